@@ -613,6 +613,7 @@ func (lsm *LSM) startFlushWorkers(n int) {
 
 				func() {
 					defer mt.DecrRef()
+					verifhook.PointID("lsm.flush.claimed", uint64(mt.segmentID))
 					verifhook.Point("lsm.flush.begin")
 					if err := lsm.levels.flush(mt); err != nil {
 						if updateErr := lsm.flushMgr.Update(task.ID, flush.StageRelease, nil, err); updateErr != nil {
